@@ -35,13 +35,14 @@ def Graph.ids (g : Graph) : List Nat := g.verts.map (·.1)
 /-- predecessor edges of `v` (`predecessorMap[v]`), in the order of `g.edges` -/
 def Graph.preds (g : Graph) (v : Nat) : List Edge := g.edges.filter (fun e => e.dst = v)
 
-/-- merge the child of edge `e` into its parent once per include statement -/
+/-- merge the child of edge `e` into its parent once per include statement; the child's
+file-level defaults are given to its tasks first (`Taskfile.bake`: `setDefaults`) -/
 def mergeIncs (src dst : Nat) : List Include → Store → Except Err Store
   | [], st => .ok st
   | inc :: r, st =>
     match st.get src, st.get dst with
     | some t1, some t2 =>
-      match mergeTaskfile t1 t2 inc with
+      match mergeTaskfile t1 t2.bake inc with
       | .ok t1' => mergeIncs src dst r (st.set src t1')
       | .error e => .error e
     | _, _ => .error .internal
